@@ -55,6 +55,13 @@ def shapes():
             back = dict(reversed(list(cp.items())))
             out.append(('shape H=%s S=%s Cp=%s (given backwards) range=%s' % (h, s, back, rng),
                         lambda h=h, s=s, cp=back, rng=rng: ThermochemGroup(h, s, cp, 298.15, rng)))
+    # six significant digits of temperature are written: such temperatures come back as they are
+    fine = {273.155: 3.5, 451.237: 1.25, 1000.0: 2.0}
+    out.append(('shape H=1.5 S=None Cp=%s range=(250.0, 1500.0)' % fine,
+                lambda: ThermochemGroup(1.5, None, dict(fine), 298.15, (250.0, 1500.0))))
+    close = {300.001: 1.0, 300.004: 2.0, 999.999: 3.0}
+    out.append(('shape H=None S=2.0 Cp=%s range=(200.125, 1000.5)' % close,
+                lambda: ThermochemGroup(None, 2.0, dict(close), 298.15, (200.125, 1000.5))))
     return out
 
 
@@ -63,6 +70,8 @@ def random_corrs(rng_, n):
     for k in range(n):
         m = rng_.choice([0, 1, 2, 4, 7, 15])
         ts = sorted(rng_.sample([float(x) for x in range(300, 1600, 50)], m))
+        if k % 5 == 0:
+            ts = [round(t - rng_.choice([0.0, 0.125, 26.849, 0.003]), 3) if t < 1000 else t for t in ts]
         if k % 2:
             rng_.shuffle(ts)      # a table given in any insertion order is the same table
         cp = {t: round(rng_.uniform(-3, 15), 6) for t in ts}
